@@ -134,7 +134,7 @@ class Hooks:
         self.log = log
 
     def fire(self, proc, name):
-        if name not in self.names:
+        if name not in self.names or (getattr(self, 'run', None) is not None and getattr(self.run, 'proc', proc) is not proc):
             return
         self.occ[name] += 1
         k = self.occ[name]
@@ -148,6 +148,9 @@ class Hooks:
         if req == 'fault':
             self.log.append(('fault', name, k, arg))
             raise Injected(arg)
+        if req == 'save':
+            self.run.snapshot()
+            return
         ret, exc = '-', '-'
         try:
             if req == 'kill':
@@ -268,6 +271,7 @@ def build_class(prog, out_missing=False):
     def define(cls, spec):
         super(klass, cls).define(spec)
         spec.outputs.dynamic = True
+        spec.inputs.dynamic = True
         if out_missing:
             spec.output('never_emitted', required=True)
     ns['define'] = classmethod(define)
@@ -281,33 +285,51 @@ def build_class(prog, out_missing=False):
     for h in USER_HOOKS:
         ns[h] = mk_hook(h)
     klass = type('GenProc', (plumpy.Process,), ns)
-    return klass
+    from . import outline_real
+    return outline_real.register(klass)      # importable: bundles identify the class by module and name
 
 
 class Run:
     """One execution of the real implementation, driven action by action."""
 
-    def __init__(self, prog, plan=(), out_missing=False):
+    def __init__(self, prog, plan=(), out_missing=False, medium='pickle', listener=True, check_roundtrip=False,
+                 inputs=None):
         del _ACTS[:]
         self.loop = vloop.install()
         self.log = []
         self.hooks = Hooks(list(plan), self.log)
+        self.hooks.run = self
+        self.medium = medium
+        self.snap = None
+        self.check_roundtrip = check_roundtrip
+        self.roundtrips = 0
         cls = build_class(prog, out_missing)
-        self.proc = p = cls()
+        self.cls = cls
+        self.proc = p = cls(inputs=inputs) if inputs is not None else cls()
+        self.use_listener = listener
+        self._attach(p)
+
+    def _attach(self, p):
+        """Harness-side wiring of a (new or restored) process instance; nothing here is persisted."""
         _CURRENT[0] = p
         p._vlog = self.log
         p._vhooks = self.hooks
-        self.listener = Recorder(self.log, self.hooks)
-        p.add_process_listener(self.listener)
+        if self.use_listener:
+            self.listener = Recorder(self.log, self.hooks)
+            p.add_process_listener(self.listener)
         p.add_state_event_callback(sm.StateEventHook.EXITING_STATE, lambda m, h, st: self.hooks.fire(p, 'cb_exiting'))
         p.add_state_event_callback(sm.StateEventHook.ENTERING_STATE, lambda m, h, st: self.hooks.fire(p, 'cb_entering'))
 
         def entered(m, h, from_state):
+            if self.proc is not p:       # an abandoned instance being torn down by the garbage collector
+                return
             self.log.append(('enter', LABEL[from_state.LABEL] if from_state is not None else '-', LABEL[p.state]))
             self.hooks.fire(p, 'cb_entered')
         p.add_state_event_callback(sm.StateEventHook.ENTERED_STATE, entered)
 
         def cleanup():
+            if self.proc is not p:
+                return
             self.log.append(('cleanup',))
             self.hooks.fire(p, 'cleanup')
         p.add_cleanup(cleanup)
@@ -315,8 +337,39 @@ class Run:
         self.task_reported = False
         self.cb_tasks = {}        # task -> kind
         self.cb_reported = set()
-        self.future0 = p.future()
         self.mark = 0
+
+    # ---- checkpoints -------------------------------------------------------------------------------
+    def snapshot(self):
+        """Bundle the process as it is now and pass the bundle through the serialisation medium.
+        C07: save -> load -> save must give the same bundle and the same observable process."""
+        from . import outline_real
+        self.log.append(('saved',))
+        b1 = outline_real.through(plumpy.Bundle(self.proc), self.medium)
+        self.snap = (b1, len(self.log))
+        if self.check_roundtrip:
+            tmp = vloop.VLoop()
+            twin = b1.unbundle(plumpy.LoadSaveContext(loop=tmp))
+            twin._vlog, twin._vhooks = [], Hooks([], [])
+            b2 = outline_real.through(plumpy.Bundle(twin), self.medium)
+            d = bundle_diff(b1, b2)
+            o1, o2 = observables(self.proc), observables(twin)
+            if d or o1 != o2:
+                self.log.append(('roundtrip-mismatch', str(d[:3]), str([(k, o1[k], o2[k]) for k in o1 if o1[k] != o2[k]])))
+            self.roundtrips += 1
+
+    def restore(self):
+        """Abandon the running instance; load the checkpoint in a fresh event loop and start stepping it."""
+        bundle, nlog = self.snap
+        old = self.proc
+        old._vlog = []                   # whatever the abandoned instance still does is of no concern
+        old._vhooks = Hooks([], [])
+        del self.log[nlog:]
+        self.log.append(('restored',))
+        del _ACTS[:]
+        self.loop = vloop.install()
+        self.proc = p = bundle.unbundle(plumpy.LoadSaveContext(loop=self.loop))
+        self._attach(p)
 
     # ---- classification of real handles --------------------------------------------------------
     def classify(self, h):
@@ -434,6 +487,51 @@ class Run:
             'fut': fut, 'closed': bool(p._closed), 'task': task, 'outputs': flat_outputs(p.outputs),
             'acc': accessors(p), 'acts': [act_status(a) for a in _ACTS],
         }
+
+
+def _plain(v):
+    if isinstance(v, BaseException):
+        return ('exc', type(v).__name__, tuple(_plain(a) for a in v.args))
+    if isinstance(v, dict):
+        return {k: _plain(x) for k, x in v.items() if k != 'traceback'}      # traceback text: optional dependency (C07)
+    if isinstance(v, (list, tuple)):
+        return [_plain(x) for x in v]
+    if isinstance(v, (set, frozenset)):
+        return sorted(repr(_plain(x)) for x in v)
+    if isinstance(v, str) and v.startswith('!!python/object') :
+        return v
+    return v
+
+
+def bundle_diff(a, b, path=''):
+    """Structural comparison of two bundles (exceptions by type and args, traceback text ignored)."""
+    a, b = _plain(a), _plain(b)
+    out = []
+
+    def walk(x, y, p):
+        if isinstance(x, dict) and isinstance(y, dict):
+            for k in sorted(set(x) | set(y), key=str):
+                if k not in x or k not in y:
+                    out.append((p + '/' + str(k), x.get(k, '<absent>'), y.get(k, '<absent>')))
+                else:
+                    walk(x[k], y[k], p + '/' + str(k))
+        elif isinstance(x, list) and isinstance(y, list) and len(x) == len(y):
+            for i, (u, v) in enumerate(zip(x, y)):
+                walk(u, v, '%s[%d]' % (p, i))
+        elif x != y:
+            out.append((p, x, y))
+    walk(a, b, path)
+    return out
+
+
+def observables(p):
+    """What C07 says a loaded process must report like the original."""
+    def deep(d):
+        return {k: deep(v) for k, v in d.items()} if hasattr(d, 'items') else d
+    return {'pid': p.pid, 'state': LABEL[p.state], 'raw_inputs': deep(p.raw_inputs) if p.raw_inputs is not None else None,
+            'inputs': deep(p.inputs) if p.inputs is not None else None, 'outputs': deep(p.outputs), 'status': p.status,
+            'paused': p.paused, 'ctime': p.creation_time, 'outcome': accessors(p),
+            'ctx': deep(p.ctx.__dict__) if hasattr(p, 'ctx') else None}
 
 
 def flat_outputs(d):
